@@ -1967,6 +1967,26 @@ func (e *CoreExtension) filterNumberFormat(value interface{}, args ...interface{
 const maxNumberFormatDecimals = 1000
 
 func (e *CoreExtension) filterAbs(value interface{}, args ...interface{}) (interface{}, error) {
+	// Integers stay integers: going through float64 loses digits beyond 2^53
+	switch v := value.(type) {
+	case int:
+		if v != math.MinInt {
+			if v < 0 {
+				return -v, nil
+			}
+			return v, nil
+		}
+	case int64:
+		if v != math.MinInt64 {
+			if v < 0 {
+				return -v, nil
+			}
+			return v, nil
+		}
+	case uint, uint64:
+		return v, nil
+	}
+
 	num, err := toFloat64(value)
 	if err != nil {
 		return value, nil
